@@ -7,8 +7,12 @@
    float64 computation). *)
 From Coq Require Import String.
 From Coq Require Import List ZArith Lia Bool.
-From GS Require Import Base.Bytes Model.GoPartial Model.Histogram Model.Stats Model.FlushPartial
-  Model.PayloadPartial.
+From GS Require Import Base.Bytes.
+From GS Require Import Model.GoPartial.
+From GS Require Import Model.Histogram.
+From GS Require Import Model.Stats.
+From GS Require Import Model.FlushPartial.
+From GS Require Import Model.PayloadPartial.
 Import ListNotations.
 Local Open Scope Z_scope.
 
